@@ -16,7 +16,8 @@ CFGS = [{"flat": f, "gzip": g} for f in (False, True) for g in (False, True)]
 def payloads(salt):
     import hashlib
     h = hashlib.sha256(str(salt).encode()).digest()
-    return {0: b"", 1: b"\x01one-" + h[:13], 2: (h * 4)[:100] + b"\x00" * 20}
+    # 3: same length and same first bytes as 1 (an overwrite that keeps the size)
+    return {0: b"", 1: b"\x01one-" + h[:13], 2: (h * 4)[:100] + b"\x00" * 20, 3: b"\x01one-" + h[13:26]}
 
 
 def _id_of(data, pay):
